@@ -22,7 +22,8 @@ from .models_sqlite import SQLITE_DONE, SQLITE_CONSTRAINT, SQLITE_ERROR
 M64 = (1 << 64) - 1
 KEYWORDS = {'SELECT', 'FROM', 'WHERE', 'AND', 'OR', 'NOT', 'NULL', 'IS', 'IN', 'INSERT', 'INTO', 'VALUES', 'UPDATE', 'SET', 'DELETE', 'REPLACE', 'ORDER', 'BY',
             'LIMIT', 'DESC', 'ASC', 'AS', 'CREATE', 'TRIGGER', 'TABLE', 'VIEW', 'INDEX', 'BEFORE', 'AFTER', 'INSTEAD', 'OF', 'ON', 'FOR', 'EACH', 'ROW', 'WHEN',
-            'BEGIN', 'END', 'UNIQUE', 'PRIMARY', 'KEY', 'AUTOINCREMENT', 'CONSTRAINT', 'FOREIGN', 'REFERENCES', 'DEFAULT', 'CASCADE', 'RESTRICT'}
+            'BEGIN', 'END', 'UNIQUE', 'PRIMARY', 'KEY', 'AUTOINCREMENT', 'CONSTRAINT', 'FOREIGN', 'REFERENCES', 'DEFAULT', 'CASCADE', 'RESTRICT',
+            'JOIN', 'INNER', 'UNION', 'ALL'}
 TOK = re.compile(r"\s*(?:(\d+)|('(?:[^']|'')*')|(\[[^\]]*\]|\"[^\"]*\"|[A-Za-z_][A-Za-z_0-9]*)|(<>|!=|<=|>=|==|\|\||[-+*/(),;=<>?.]))")
 
 class SqlError(Exception): pass
@@ -119,6 +120,7 @@ class Parser:
             e = s.expr(); s.expect('op', ')'); return e
         if t[0] in ('id', 'kw'):
             name = t[1]
+            if t[0] == 'id' and name.upper() in ('TRUE', 'FALSE') and not s.at('op', '(') and not s.at('op', '.'): return ('lit', ('int', 1 if name.upper() == 'TRUE' else 0))
             if s.at('op', '('):
                 s.i += 1; args = []
                 if s.accept('op', '*'): args = ['*']
@@ -132,7 +134,24 @@ class Parser:
             return ('col', None, name.lower())
         raise SqlError('unexpected token %r in: %s' % (t, s.sql[:200]))
     # ---- statements
+    def qname(s):
+        """[schema .] name  -> name (the attached-database qualifier of the 1.x schemas is dropped: names are unique across the two files)"""
+        n = s.ident()
+        if s.accept('op', '.'): n = s.ident()
+        return n
+    def tableref(s):
+        t = s.qname(); alias = None
+        if s.accept('kw', 'AS'): alias = s.ident()
+        elif s.at('id'): alias = s.ident()
+        return (t, alias)
     def select(s):
+        left = s.select_core()
+        while s.at_kw('UNION'):
+            s.next(); allq = s.accept('kw', 'ALL')
+            right = s.select_core()
+            left = {'k': 'compound', 'all': allq, 'left': left, 'right': right}
+        return left
+    def select_core(s):
         s.expect('kw', 'SELECT')
         cols = []
         while True:
@@ -142,12 +161,12 @@ class Parser:
                 if s.accept('kw', 'AS'): alias = s.ident()
                 cols.append((e, alias))
             if not s.accept('op', ','): break
-        table = None; alias = None; where = None; order = None; limit = None
+        frm = []; joins = []; where = None; order = None; limit = None
         if s.accept('kw', 'FROM'):
-            table = s.ident()
-            if s.accept('op', '.'): table = s.ident()
-            if s.accept('kw', 'AS'): alias = s.ident()
-            elif s.at('id'): alias = s.ident()
+            frm.append(s.tableref())
+            while s.at_kw('JOIN', 'INNER'):
+                s.accept('kw', 'INNER'); s.expect('kw', 'JOIN'); frm.append(s.tableref())
+                if s.accept('kw', 'ON'): joins.append(s.expr())
         if s.accept('kw', 'WHERE'): where = s.expr()
         if s.accept('kw', 'ORDER'):
             s.expect('kw', 'BY'); oc = s.expr(); desc = False
@@ -155,7 +174,8 @@ class Parser:
             else: s.accept('kw', 'ASC')
             order = (oc, desc)
         if s.accept('kw', 'LIMIT'): limit = s.next()[1]
-        return {'k': 'select', 'cols': cols, 'table': table, 'alias': alias, 'where': where, 'order': order, 'limit': limit}
+        for j in joins: where = j if where is None else ('and', j, where)
+        return {'k': 'select', 'cols': cols, 'from': frm, 'table': frm[0][0] if frm else None, 'alias': frm[0][1] if frm else None, 'where': where, 'order': order, 'limit': limit}
     def statement(s):
         if s.at_kw('SELECT'): return s.select()
         if s.at_kw('INSERT', 'REPLACE'):
@@ -164,13 +184,14 @@ class Parser:
             else:
                 s.expect('kw', 'INSERT')
                 if s.accept('kw', 'OR'): s.expect('kw', 'REPLACE'); replace = True
-            s.expect('kw', 'INTO'); table = s.ident()
-            if s.accept('op', '.'): table = s.ident()
+            s.expect('kw', 'INTO'); table = s.qname()
             cols = None
             if s.accept('op', '('):
                 cols = [s.ident().lower()]
                 while s.accept('op', ','): cols.append(s.ident().lower())
                 s.expect('op', ')')
+            if s.at_kw('SELECT'):
+                return {'k': 'insert', 'table': table, 'cols': cols, 'tuples': None, 'select': s.select(), 'replace': replace}
             s.expect('kw', 'VALUES'); tuples = []
             while True:
                 s.expect('op', '('); vals = [s.expr()]
@@ -179,8 +200,7 @@ class Parser:
                 if not s.accept('op', ','): break
             return {'k': 'insert', 'table': table, 'cols': cols, 'tuples': tuples, 'replace': replace}
         if s.accept('kw', 'UPDATE'):
-            table = s.ident()
-            if s.accept('op', '.'): table = s.ident()
+            table = s.qname()
             s.expect('kw', 'SET'); sets = []
             while True:
                 c = s.ident().lower(); s.expect('op', '='); sets.append((c, s.expr()))
@@ -188,8 +208,7 @@ class Parser:
             where = s.expr() if s.accept('kw', 'WHERE') else None
             return {'k': 'update', 'table': table, 'sets': sets, 'where': where}
         if s.accept('kw', 'DELETE'):
-            s.expect('kw', 'FROM'); table = s.ident()
-            if s.accept('op', '.'): table = s.ident()
+            s.expect('kw', 'FROM'); table = s.qname()
             where = s.expr() if s.accept('kw', 'WHERE') else None
             return {'k': 'delete', 'table': table, 'where': where}
         raise SqlError('unsupported statement: ' + s.sql[:120])
@@ -209,7 +228,7 @@ def parse_statement(sql):
 class Schema:
     """immutable after construction: shared by all states"""
     def __init__(s, ddl):
-        s.tables = {}; s.triggers = []; s.views = {}; s.unparsed = []
+        s.tables = {}; s.triggers = []; s.views = {}; s.view_defs = {}; s.unparsed = []
         for sql in ddl:
             try: s.add(sql)
             except SqlError as e: s.unparsed.append((sql[:100], str(e)))
@@ -217,17 +236,31 @@ class Schema:
         p = Parser(sql)
         if not p.accept('kw', 'CREATE'): return
         if p.accept('kw', 'UNIQUE'):
-            p.expect('kw', 'INDEX'); name = p.ident(); p.expect('kw', 'ON'); table = p.ident().lower(); p.expect('op', '(')
+            p.expect('kw', 'INDEX'); name = p.qname(); p.expect('kw', 'ON'); table = p.qname().lower(); p.expect('op', '(')
             cols = [p.ident().lower()]
             while p.accept('op', ','): cols.append(p.ident().lower())
             if table in s.tables: s.tables[table]['uniq'].append(tuple(cols))
             return
         if p.accept('kw', 'INDEX'): return
         if p.accept('kw', 'VIEW'):
-            name = p.ident(); s.views[name.lower()] = re.sub(r'\s+', ' ', sql.strip().rstrip(';')).strip(); return
+            name = p.qname(); s.views[name.lower()] = re.sub(r'\s+', ' ', sql.strip().rstrip(';')).strip()
+            # a plain SELECT view (projection / filter / inner join) is given its meaning generically; WITH (recursive) views stay text only
+            try:
+                vcols = None
+                if p.accept('op', '('):
+                    vcols = [p.ident().lower()]
+                    while p.accept('op', ','): vcols.append(p.ident().lower())
+                    p.expect('op', ')')
+                p.expect('kw', 'AS')
+                if p.at_kw('SELECT'):
+                    sel = p.select(); p.finish()
+                    s.view_defs[name.lower()] = {'cols': vcols, 'select': sel}
+            except SqlError: pass
+            return
         if p.accept('kw', 'TABLE'):
-            name = p.ident(); p.expect('op', '(')
-            t = {'name': name, 'cols': [], 'uniq': [], 'pk': None, 'autoinc': False, 'fks': [], 'types': {}}
+            if p.peek()[0] == 'id' and p.peek()[1].upper() == 'IF': p.next(); p.next(); p.next()          # IF NOT EXISTS
+            name = p.qname(); p.expect('op', '(')
+            t = {'name': name, 'cols': [], 'uniq': [], 'pk': None, 'autoinc': False, 'fks': [], 'types': {}, 'defaults': {}}
             while True:
                 if p.at_kw('CONSTRAINT', 'UNIQUE', 'PRIMARY', 'FOREIGN'):
                     if p.accept('kw', 'CONSTRAINT'): p.ident()
@@ -240,8 +273,13 @@ class Schema:
                         while p.accept('op', ','): cols.append(p.ident().lower())
                         p.expect('op', ')'); t['uniq'].append(tuple(cols)); t['pkcols'] = tuple(cols)
                     elif p.accept('kw', 'FOREIGN'):
-                        p.expect('kw', 'KEY'); p.expect('op', '('); fc = p.ident().lower(); p.expect('op', ')'); p.expect('kw', 'REFERENCES')
-                        rt = p.ident().lower(); p.expect('op', '('); rc = p.ident().lower(); p.expect('op', ')'); action = None
+                        p.expect('kw', 'KEY'); p.expect('op', '('); fc = [p.ident().lower()]
+                        while p.accept('op', ','): fc.append(p.ident().lower())
+                        p.expect('op', ')'); p.expect('kw', 'REFERENCES')
+                        rt = p.qname().lower(); p.expect('op', '('); rc = [p.ident().lower()]
+                        while p.accept('op', ','): rc.append(p.ident().lower())
+                        p.expect('op', ')'); action = None
+                        fc = tuple(fc); rc = tuple(rc)
                         while p.at_kw('ON'):
                             p.next(); ev = p.next()[1]; a1 = p.next()[1]
                             if a1 == 'SET': a1 = 'SET ' + str(p.next()[1])
@@ -258,6 +296,10 @@ class Schema:
                         typ.append(tk)
                     words = [str(x[1]).upper() for x in typ]
                     t['types'][col] = words[0] if words else ''
+                    if 'DEFAULT' in words:
+                        d = typ[words.index('DEFAULT') + 1]
+                        if d[0] == 'num': t['defaults'][col] = ('int', d[1])
+                        elif d[0] == 'str': t['defaults'][col] = ('text', tuple(d[1].encode()))
                     if 'PRIMARY' in words:
                         if words and words[0] == 'INTEGER': t['pk'] = col
                         else: t['uniq'].append((col,))
@@ -267,19 +309,22 @@ class Schema:
                         k = words.index('REFERENCES'); rt = str(typ[k + 1][1]).lower(); rc = str(typ[k + 3][1]).lower(); action = None
                         for j in range(k, len(words) - 2):
                             if words[j] == 'ON' and words[j + 1] == 'DELETE': action = words[j + 2] if words[j + 2] != 'SET' else 'SET ' + words[j + 3]
-                        t['fks'].append((col, rt, rc, action))
+                        t['fks'].append(((col,), rt, (rc,), action))
                 if not p.accept('op', ','): break
             p.expect('op', ')')
+            pkc = t.get('pkcols')
+            if t['pk'] is None and pkc and len(pkc) == 1 and t['types'].get(pkc[0]) == 'INTEGER':
+                t['pk'] = pkc[0]; t['uniq'] = [u for u in t['uniq'] if u != pkc]          # PRIMARY KEY (x) on one INTEGER column is the rowid as well
             s.tables[name.lower()] = t
             return
         if p.accept('kw', 'TRIGGER'):
-            name = p.ident(); timing = p.next()[1]
+            name = p.qname(); timing = p.next()[1]
             if timing == 'INSTEAD': p.expect('kw', 'OF')
             ev = p.next()[1]; ofcols = None
             if ev == 'UPDATE' and p.accept('kw', 'OF'):
                 ofcols = [p.ident().lower()]
                 while p.accept('op', ','): ofcols.append(p.ident().lower())
-            p.expect('kw', 'ON'); table = p.ident().lower()
+            p.expect('kw', 'ON'); table = p.qname().lower()
             if p.accept('kw', 'FOR'): p.expect('kw', 'EACH'); p.expect('kw', 'ROW')
             when = p.expr() if p.accept('kw', 'WHEN') else None
             p.expect('kw', 'BEGIN'); body = []
@@ -323,7 +368,7 @@ def install_rel(eng, cfg):
     def sgn(x): return E.to_signed(x & M64, 64) if x.__class__ is int else x
 
     class Ctx:
-        def __init__(c, st, db, binds, sql): c.st = st; c.db = db; c.binds = binds; c.sql = sql; c.new = None; c.old = None; c.active = []
+        def __init__(c, st, db, binds, sql): c.st = st; c.db = db; c.binds = binds; c.sql = sql; c.new = None; c.old = None; c.active = []; c.agg = None
 
     # ---- three-valued comparison of two values; returns True / False / None (NULL)
     def cmp_vals(ctx, op, a, b):
@@ -381,6 +426,7 @@ def install_rel(eng, cfg):
         if k == 'lit':
             v = e[1]
             return ('int', v[1] & M64) if v[0] == 'int' else v
+        if k == 'val': return e[1]
         if k == 'param':
             if e[1] not in ctx.binds: raise E.Bug('assert', 'SQL parameter %d of "%s" was never bound' % (e[1], ctx.sql[:60]), eng._m(ctx.st))
             return ctx.binds[e[1]]
@@ -393,7 +439,9 @@ def install_rel(eng, cfg):
         if k == 'bin':
             a, b = ev(ctx, e[2], row_env), ev(ctx, e[3], row_env)
             if a[0] == 'null' or b[0] == 'null': return ('null',)
-            if e[1] == '||': raise E.Inconclusive('sqlmodel', 'string concatenation')
+            if e[1] == '||':
+                if a[0] == 'text' and b[0] == 'text': return ('text', tuple(a[1]) + tuple(b[1]))
+                raise E.Inconclusive('sqlmodel', 'string concatenation of non-text values')
             if a[0] != 'int' or b[0] != 'int': raise E.Inconclusive('sqlmodel', 'arithmetic on non-integers')
             x, y = a[1], b[1]
             if x.__class__ is int and y.__class__ is int:
@@ -442,9 +490,32 @@ def install_rel(eng, cfg):
             return as_val(res)
         if k == 'call':
             f = e[1]
+            if f == 'COALESCE':
+                for a_ in e[2]:
+                    v = ev(ctx, a_, row_env)
+                    if v[0] != 'null': return v
+                return ('null',)
             if f == 'IFNULL':
                 a = ev(ctx, e[2][0], row_env)
                 return a if a[0] != 'null' else ev(ctx, e[2][1], row_env)
+            if f in AGGS:
+                envs = ctx.agg
+                if envs is None: raise E.Inconclusive('sqlmodel', 'aggregate %s outside a select list' % f)
+                if f == 'COUNT' and e[2] == ['*']: return ('int', len(envs))
+                ctx.agg = None
+                try: vals = [ev(ctx, e[2][0], env + list(row_env)) for env in envs]
+                finally: ctx.agg = envs
+                vals = [v for v in vals if v[0] != 'null']
+                if f == 'COUNT': return ('int', len(vals))
+                if not vals: return ('null',)
+                ks = []
+                for v in vals:
+                    if v[0] != 'int': raise E.Inconclusive('sqlmodel', '%s over non-integers' % f)
+                    x = v[1]
+                    if x.__class__ is not int: x = eng.concretize(ctx.st, x, 'aggregate operand')
+                    ks.append(sgn(x))
+                r = max(ks) if f == 'MAX' else (min(ks) if f == 'MIN' else sum(ks))
+                return ('int', r & M64)
             if f == 'RAISE':
                 msg = e[2][1][1][1] if len(e[2]) > 1 and e[2][1][0] == 'lit' else ()
                 raise Abort(SQLITE_CONSTRAINT, 'RAISE: ' + bytes(msg).decode('latin1'))
@@ -490,31 +561,66 @@ def install_rel(eng, cfg):
                         if seen > len(ids) * len(ids) + 1: raise E.Bug('nonterm', 'the recursive view PlaylistAllChildren does not terminate: the parent links of Playlist contain a cycle (SQLite loops forever)', eng._m(ctx.st))
                         work.extend(kids.get(c, []))
             return out
-        if n in schema.views:
-            if re.search(r'AS SELECT 0, 0 WHERE FALSE$', schema.views[n], re.I): return []        # the always-empty ChangeLog view of the later 2.x schemas
-            raise E.Inconclusive('sqlmodel', 'view %s is not modelled' % name)
+        if n in schema.view_defs:
+            vd = schema.view_defs[n]
+            names_, rows_ = run_select_named(Ctx(ctx.st, ctx.db, {}, 'view ' + name), vd['select'], [])
+            if vd['cols']: names_ = vd['cols']
+            return [(None, dict(zip(names_, r))) for r in rows_]
+        if n in schema.views: raise E.Inconclusive('sqlmodel', 'view %s is not modelled' % name)
         raise Abort(SQLITE_ERROR, 'no such table: ' + name)
 
-    def run_select(ctx, sel, outer_env):
-        if sel['table'] is None:
-            return [[ev(ctx, c[0], outer_env) for c in sel['cols']]]
-        names = {sel['table'].lower()}
-        if sel['alias']: names.add(sel['alias'].lower())
-        rel = relation(ctx, sel['table']); res = []
-        tdef = schema.tables.get(sel['table'].lower())
-        def full(rid, row):
-            if tdef is None: return row
-            r = {c: row.get(c, ('null',)) for c in tdef['cols']}
-            if tdef['pk']: r['rowid'] = r[tdef['pk']]
-            elif rid is not None: r['rowid'] = ('int', rid & M64)
-            return r
+    AGGS = ('MAX', 'MIN', 'COUNT', 'SUM')
+    def has_agg(e):
+        if not isinstance(e, tuple): return False
+        if e and e[0] == 'call' and e[1] in AGGS: return True
+        return any(has_agg(x) for x in e if isinstance(x, (tuple, list))) or any(has_agg(y) for x in e if isinstance(x, list) for y in x)
+    def full_row(name, rid, row):
+        tdef = schema.tables.get(name.lower())
+        if tdef is None: return row
+        r = {c: row.get(c, ('null',)) for c in tdef['cols']}
+        if tdef['pk']: r['rowid'] = r[tdef['pk']]
+        elif rid is not None: r['rowid'] = ('int', rid & M64)
+        return r
+    def out_name(c, i):
+        if c[1]: return c[1].lower()
+        if c[0] != 'star' and c[0][0] == 'col': return c[0][2]
+        return 'col%d' % i
+    def run_select_named(ctx, sel, outer_env):
+        """-> (column names, rows)"""
+        if sel['k'] == 'compound':
+            ln, lr = run_select_named(ctx, sel['left'], outer_env); rn, rr = run_select_named(ctx, sel['right'], outer_env)
+            rows = lr + rr
+            if not sel['all']:
+                out = []
+                for r in rows:
+                    dup = False
+                    for o in out:
+                        same = True
+                        for x, y in zip(r, o):
+                            if x[0] == 'null' and y[0] == 'null': continue
+                            if cmp_vals(ctx, '=', x, y) is not True: same = False; break
+                        if same: dup = True; break
+                    if not dup: out.append(r)
+                rows = out
+            return ln, rows
+        cols = sel['cols']
+        if not sel['from']:
+            if sel['where'] is not None and truth(ev(ctx, sel['where'], outer_env)) is not True: return [out_name(c, i) for i, c in enumerate(cols)], []
+            return [out_name(c, i) for i, c in enumerate(cols)], [[ev(ctx, c[0], outer_env) for c in cols]]
+        # cross product of the FROM items (inner joins: their ON conditions were folded into WHERE)
+        envs = [[]]
+        for tname_, alias in sel['from']:
+            names = {tname_.lower()}
+            if alias: names.add(alias.lower())
+            rel = relation(ctx, tname_)
+            envs = [e + [(names, full_row(tname_, rid, row))] for e in envs for rid, row in rel]
         matched = []
-        for rid, row in rel:
-            r = full(rid, row); env = [(names, r)] + list(outer_env)
-            if sel['where'] is None or truth(ev(ctx, sel['where'], env)) is True: matched.append((rid, r, env))
+        for e in envs:
+            env = e + list(outer_env)
+            if sel['where'] is None or truth(ev(ctx, sel['where'], env)) is True: matched.append(env)
         if sel['order']:
             keyed = []
-            for rid, r, env in matched:
+            for env in matched:
                 v = ev(ctx, sel['order'][0], env)
                 if v[0] == 'null': kk = (0, 0)
                 elif v[0] == 'int':
@@ -522,25 +628,44 @@ def install_rel(eng, cfg):
                     if x.__class__ is not int: x = eng.concretize(ctx.st, x, 'ORDER BY key')
                     kk = (1, sgn(x))
                 else: raise E.Inconclusive('sqlmodel', 'ORDER BY on a non-integer')
-                keyed.append((kk, rid, r, env))
-            keyed.sort(key=lambda t: t[0], reverse=sel['order'][1]); matched = [(b, c, d) for a, b, c, d in keyed]
-        cols = sel['cols']
-        if len(cols) == 1 and cols[0][0] != 'star' and cols[0][0][0] == 'call' and cols[0][0][1] == 'COUNT':
-            return [[('int', len(matched))]]
-        for rid, r, env in matched:
+                keyed.append((kk, env))
+            keyed.sort(key=lambda t: t[0], reverse=sel['order'][1]); matched = [b for a, b in keyed]
+        names_out = []
+        for i, c in enumerate(cols):
+            if c[0] == 'star':
+                for tname_, alias in sel['from']:
+                    tdef = schema.tables.get(tname_.lower())
+                    names_out.extend(tdef['cols'] if tdef else view_columns(tname_))
+            else: names_out.append(out_name(c, i))
+        if any(c[0] != 'star' and has_agg(c[0]) for c in cols):
+            old = ctx.agg; ctx.agg = matched
+            try: row = [ev(ctx, c[0], list(outer_env)) for c in cols]
+            finally: ctx.agg = old
+            return names_out, [row]
+        res = []
+        for env in matched:
             out = []
             for c in cols:
                 if c[0] == 'star':
-                    if tdef is None: out.extend(r.values())
-                    else: out.extend(r[x] for x in tdef['cols'])
+                    for (tname_, alias), (nm_, r) in zip(sel['from'], env):
+                        tdef = schema.tables.get(tname_.lower())
+                        out.extend(r[x] for x in (tdef['cols'] if tdef else view_columns(tname_)))
                 else: out.append(ev(ctx, c[0], env))
             res.append(out)
         if sel['limit'] is not None: res = res[:sel['limit']]
-        return res
+        return names_out, res
+    def run_select(ctx, sel, outer_env): return run_select_named(ctx, sel, outer_env)[1]
+    def view_columns(name):
+        vd = schema.view_defs.get(name.lower())
+        if vd is None: raise E.Inconclusive('sqlmodel', 'columns of view %s' % name)
+        if vd['cols']: return vd['cols']
+        sel = vd['select']
+        while sel['k'] == 'compound': sel = sel['left']
+        return [out_name(c, i) for i, c in enumerate(sel['cols'])]
 
     # ---- triggers
     def fire(ctx, timing, event, table, new, old, changed=None):
-        for tg in schema.triggers:
+        for tg in reversed(schema.triggers):          # SQLite runs the triggers of one event most-recently-created first (observed; found by the differential validation)
             if tg['table'] != table or tg['timing'] != timing or tg['event'] != event: continue
             if tg['of'] is not None and changed is not None and not (set(tg['of']) & set(changed)): continue
             if tg['name'] in ctx.active: continue          # recursive_triggers = OFF
@@ -575,24 +700,42 @@ def install_rel(eng, cfg):
             return run_select(ctx, stmt, [])
         tname = stmt['table'].lower()
         tdef = schema.tables.get(tname)
+        # INSERT ... SELECT: the rows are computed first, then inserted like literal tuples
+        if k == 'insert' and stmt.get('tuples') is None:
+            rows_ = run_select(ctx, stmt['select'], [])
+            stmt = dict(stmt, tuples=[[('val', v) for v in r] for r in rows_])
         if tdef is None:
-            if tname in schema.views and k == 'insert' and stmt['cols']:
-                # INSERT through a view: only its INSTEAD OF triggers run
+            if tname in schema.views:
+                # a write through a view runs only its INSTEAD OF triggers, once per affected view row
+                def has_trigger(ev_): return any(tg['table'] == tname and tg['timing'] == 'INSTEAD' and tg['event'] == ev_ for tg in schema.triggers)
                 n = 0
-                for vals in stmt['tuples']:
-                    new = {c: ev(ctx, e, []) for c, e in zip(stmt['cols'], vals)}
-                    fire(ctx, 'INSTEAD', 'INSERT', tname, new, None); n += 1
-                if not any(tg['table'] == tname and tg['timing'] == 'INSTEAD' and tg['event'] == 'INSERT' for tg in schema.triggers):
-                    raise Abort(SQLITE_ERROR, 'cannot modify %s because it is a view' % stmt['table'])
+                if k == 'insert':
+                    if not has_trigger('INSERT'): raise Abort(SQLITE_ERROR, 'cannot modify %s because it is a view' % stmt['table'])
+                    vcols = stmt['cols'] or view_columns(tname)
+                    for vals in stmt['tuples']:
+                        new = {c: ('null',) for c in view_columns(tname)}
+                        new.update({c: ev(ctx, e, []) for c, e in zip(vcols, vals)})
+                        fire(ctx, 'INSTEAD', 'INSERT', tname, new, None); n += 1
+                    return n
+                evn = 'UPDATE' if k == 'update' else 'DELETE'
+                if not has_trigger(evn): raise Abort(SQLITE_ERROR, 'cannot modify %s because it is a view' % stmt['table'])
+                rows_ = [r for rid, r in relation(ctx, tname)]
+                sel_rows = [r for r in rows_ if stmt['where'] is None or truth(ev(ctx, stmt['where'], [({tname}, r)])) is True]
+                for r in sel_rows:
+                    if k == 'update':
+                        new = dict(r)
+                        for c, e in stmt['sets']: new[c] = ev(ctx, e, [({tname}, r)])
+                        fire(ctx, 'INSTEAD', 'UPDATE', tname, new, r, [c for c, e in stmt['sets']])
+                    else: fire(ctx, 'INSTEAD', 'DELETE', tname, None, r)
+                    n += 1
                 return n
-            if tname in schema.views: raise E.Inconclusive('sqlmodel', 'write through view %s (INSTEAD OF triggers) is not modelled' % stmt['table'])
             raise Abort(SQLITE_ERROR, 'no such table: ' + stmt['table'])
         t = db.rows[tname]; names = {tname}; n = 0
         if k == 'insert':
             cols = stmt['cols'] or tdef['cols']; pending_seq = 0
             for vals in stmt['tuples']:
                 if len(vals) != len(cols): raise Abort(SQLITE_ERROR, 'column / value count mismatch')
-                row = {}
+                row = dict(tdef['defaults'])
                 for c, e in zip(cols, vals):
                     if c not in tdef['cols']: raise Abort(SQLITE_ERROR, 'table %s has no column named %s' % (tdef['name'], c))
                     row[c] = ev(ctx, e, [])
@@ -656,14 +799,13 @@ def install_rel(eng, cfg):
                     for ct, cdef in schema.tables.items():
                         for fc, rt, rc, action in cdef['fks']:
                             if rt != tname: continue
-                            key = old.get(rc, ('null',))
                             for crid in sorted(db.rows[ct]):
                                 if crid not in db.rows[ct]: continue
-                                if cmp_vals(ctx, '=', db.rows[ct][crid].get(fc, ('null',)), key) is True:
+                                if all(cmp_vals(ctx, '=', db.rows[ct][crid].get(f_, ('null',)), old.get(r_, ('null',))) is True for f_, r_ in zip(fc, rc)):
                                     if action == 'CASCADE':
                                         sub = {'k': 'delete', 'table': ct, 'where': ('cmp', '=', ('col', None, 'rowid'), ('lit', ('int', crid)))}
                                         run(ctx, sub)
-                                    elif action == 'SET NULL': db.rows[ct][crid] = dict(db.rows[ct][crid], **{fc: ('null',)})
+                                    elif action == 'SET NULL': db.rows[ct][crid] = dict(db.rows[ct][crid], **{f_: ('null',) for f_ in fc})
                                     else: raise Abort(SQLITE_CONSTRAINT, 'FOREIGN KEY constraint failed')
                 fire(ctx, 'AFTER', 'DELETE', tname, None, old)
             return n
